@@ -83,6 +83,17 @@ func AddSymlink(path, target string, mtime time.Time) string {
 	return path
 }
 
+// Remove makes a previously added path absent (natively: deletes it).
+func Remove(path string) {
+	if !zz.Symbolic() {
+		os.Remove(path)
+		return
+	}
+	if n := find(path); n != nil {
+		n.Absent = true
+	}
+}
+
 // NodeOf returns the model node (symbolic runs only).
 func NodeOf(path string) *Node { return find(path) }
 
